@@ -568,6 +568,16 @@ static void run(void)
 		seen[s] = clients[conn[s]].nmsgs;
 	}
 	last_action = "seed";
+	/* a crowd of passive fetch-all subscribers that arrived first: the per-element subscriber tables have grown (more than once, if
+	 * the crowd is big enough) before the modelled subscribers take their places behind them */
+	for (int i = 0; i < (int)xp_param("crowd", 0); i++) {
+		int c = jx_open((i & 1) ? CL_WS : CL_RAW);
+		if (acl) {
+			jx_sendf(c, "{\"id\":\"au\",\"method\":\"authenticate\",\"params\":{\"user\":\"both\",\"password\":\"pw\"}}");
+		}
+		jx_sendf(c, "{\"id\":\"cf\",\"method\":\"fetch\",\"params\":{\"id\":\"crowd%d\"}}", i);
+		jx_settle();
+	}
 	if (seedstate == 1) {
 		/* two elements and a fetch-all */
 		apply(&acts[0]);           /* P:add(a) */
